@@ -6,6 +6,8 @@ predicate (real code only): get(i) == get(None)[:, [i]]; batched hedge == forced
 recorded model inputs show prev_hedge(i) == output(i-1), zeros of width H at step 0.
 Markets include options struck below zero and paths below zero (one sign per path); hedgers are also evaluated through copies
 (copy.deepcopy before / after use, pickle round trip, state_dict loaded into a newly built hedger) against a hand-unrolled recurrence.
+Default hedge (hedge=None = the derivative's underliers): built-in options and user-defined options with 2-3 registered underliers.
+One-feature hedgers whose module works IN PLACE on its input (see `inplace_section`).
 """
 from fractions import Fraction as F
 from common import *  # noqa
@@ -80,6 +82,31 @@ def blank_model(ms):
         return dict(ms, w=z(ms["w"]), b=[F(0)] * len(ms["b"]))
     return dict(ms, layers=[dict(w=z(l["w"]), b=[F(0)] * len(l["b"])) for l in ms["layers"]])
 
+
+def user_derivative(torch, mk, u, others, reg):
+    """a USER-DEFINED derivative with several underliers: a sub-class of the built-in option on the first asset `u` that registers the
+    further assets its holder trades (BaseDerivative's registry, by register_underlier or by attribute assignment); otherwise as
+    hedge_common.build_derivative makes it.  Hedged with the default hedge=None its hedging instruments are ALL its underliers."""
+    import pfhedge.instruments as I
+
+    class MultiAsset(getattr(I, mk["option"])):
+        def __init__(self, first, others, **kw):
+            super().__init__(first, **kw)
+            for i, s_ in enumerate(others):
+                if reg == "attribute":
+                    setattr(self, f"asset{i + 1}", s_)
+                else:
+                    self.register_underlier(f"asset{i + 1}", s_)
+    d = MultiAsset(u, others, call=mk["call"], strike=float(mk["strike"]), maturity=(mk["T"] - 1) * float(mk["dt"]))
+    a, b = mk["listed"]
+    d.list(lambda dd, a=float(a), b=float(b): dd.ul().spot * a + b, cost=float(mk["cost"]))
+    if [id(x) for x in d.underliers()] != [id(u)] + [id(x) for x in others]:
+        raise InternalError("the user-defined derivative does not list its underliers in registration order")
+    return d
+
+
+# deterministic corpus (every tier, every seed) of the number of underliers of default-hedge scenarios in the hedge-modes loop
+DEFAULT_HEDGE_CORPUS = [2, 3, 2, 1, 2, 3]
 
 COPY_KINDS = ["deepcopy_fresh", "deepcopy_used", "pickle_fresh", "state_dict"]
 
@@ -205,6 +232,282 @@ def judge_second_round(ctx, torch, second, case, name, log, fjson=None):
               [("ok", v.to(torch.float64)[p, 0].tolist()) for _, v in ats])) for p in range(N)]
 
 
+# ---- one-feature hedgers whose module works in place on its input ---------------------------------------------------------------
+
+INPLACE_FIRST = ["relu_", "hardtanh_", "sub_", "mul_", "none"]
+# single input features with a value table in the generated market (several hand out a VIEW of an instrument's buffer when asked for
+# all steps: underlier_spot; spot of a derivative listed at its underlier's price; variance of a Heston stock; volatility of a
+# local-volatility stock) and the hedger's own stored tensor (prev_hedge alone)
+INPLACE_FEATURES = ["underlier_spot", "spot", "variance", "volatility", "moneyness", "prev_hedge"]
+# deterministic corpus (every tier, every seed): (feature, primary, first operation of the module, H)
+INPLACE_CORPUS = [("underlier_spot", "BrownianStock", "sub_", 1), ("underlier_spot", "HestonStock", "hardtanh_", 2),
+                  ("underlier_spot", "MertonJumpStock", "mul_", 1), ("underlier_spot", "LocalVolatilityStock", "relu_", 1),
+                  ("spot", "BrownianStock", "sub_", 1), ("spot", "HestonStock", "hardtanh_", 1), ("spot", "BrownianStock", "mul_", 2),
+                  ("variance", "HestonStock", "sub_", 1), ("variance", "HestonStock", "relu_", 2), ("variance", "HestonStock", "hardtanh_", 1),
+                  ("volatility", "LocalVolatilityStock", "sub_", 1), ("volatility", "LocalVolatilityStock", "hardtanh_", 2),
+                  ("moneyness", "BrownianStock", "sub_", 1), ("prev_hedge", "BrownianStock", "relu_", 1),
+                  ("prev_hedge", "BrownianStock", "sub_", 2), ("prev_hedge", "HestonStock", "hardtanh_", 2), ("prev_hedge", "BrownianStock", "mul_", 1),
+                  ("prev_hedge", "MertonJumpStock", "relu_", 3), ("underlier_spot", "BrownianStock", "none", 1)]
+
+
+def feature_table(name, mk):
+    """[N][T] values of a single input feature from the generated market alone"""
+    if name == "underlier_spot" or name == "spot":      # (the derivative is listed at its underlier's price)
+        return mk["spot"]
+    if name == "variance":
+        return mk["var"]
+    if name == "volatility":
+        return mk["vol"]
+    if name == "moneyness":
+        return [[x / mk["strike"] for x in p] for p in mk["spot"]]
+    raise InternalError("no value table for feature " + name)
+
+
+def gen_inplace(g, nin, H, first, values):
+    """a module whose FIRST operation overwrites its input tensor (torch's in-place activations; `input -= 1`, `input *= 1/2` in a
+    user module), followed by a dyadic Linear(nin, H); 'none' = the out-of-place control.  Clip bounds around values of the input."""
+    lo = g.choice(values) if values else g.choice([F(-1, 4), F(0), F(1, 4)])
+    if g.chance(0.5):
+        lo += g.choice([F(1, 8), F(-1, 8), F(1, 4)])
+    w = [[g.choice([F(-1), F(-1, 2), F(1, 2), F(1), F(1, 4), F(-1, 4), F(2)]) for _ in range(nin)] for _ in range(H)]
+    b = [g.choice([F(0), F(1, 2), F(-1, 4), F(1, 4)]) for _ in range(H)]
+    return dict(first=first, lo=lo, hi=lo + g.choice([F(1, 8), F(1, 4), F(1, 2), F(1)]), w=w, b=b)
+
+
+def inplace_obj(torch, ip):
+    nn = torch.nn
+    lin = nn.Linear(len(ip["w"][0]), len(ip["w"]), dtype=torch.float64)
+    with torch.no_grad():
+        lin.weight.copy_(torch.tensor([[float(x) for x in r] for r in ip["w"]], dtype=torch.float64))
+        lin.bias.copy_(torch.tensor([float(x) for x in ip["b"]], dtype=torch.float64))
+
+    class InPlaceFirst(nn.Module):
+        """user module: normalises its input without a temporary"""
+
+        def __init__(self, linear, op):
+            super().__init__()
+            self.linear, self.op = linear, op
+
+        def forward(self, input):
+            if self.op == "sub_":
+                input -= 1.0
+            else:
+                input *= 0.5
+            return self.linear(input)
+    if ip["first"] == "relu_":
+        return nn.Sequential(nn.ReLU(inplace=True), lin)
+    if ip["first"] == "hardtanh_":
+        return nn.Sequential(nn.Hardtanh(float(ip["lo"]), float(ip["hi"]), inplace=True), lin)
+    if ip["first"] == "none":
+        return nn.Sequential(nn.ReLU(), lin)
+    return InPlaceFirst(lin, ip["first"])
+
+
+def inplace_model_json(ip):
+    """the same function of the input as a module of the Lean driver (exact on dyadic data):
+    relu: Linear(identity) -> ReLU -> Linear;  clip(x, lo, hi) = lo + relu(x - lo) - relu(x - hi);  w (x - 1) + b = w x + (b - sum w);  w (x / 2) + b"""
+    w, b, nin = ip["w"], ip["b"], len(ip["w"][0])
+    eye = [[F(int(i == j)) for j in range(nin)] for i in range(nin)]
+    if ip["first"] in ("relu_", "none"):
+        ms = dict(kind="mlp", layers=[dict(w=eye, b=[F(0)] * nin), dict(w=w, b=b)])
+    elif ip["first"] == "hardtanh_":
+        ms = dict(kind="mlp", layers=[dict(w=eye + eye, b=[-ip["lo"]] * nin + [-ip["hi"]] * nin),
+                                      dict(w=[r + [-x for x in r] for r in w], b=[bb + sum(r) * ip["lo"] for r, bb in zip(w, b)])])
+    elif ip["first"] == "sub_":
+        ms = dict(kind="linear", w=w, b=[bb - sum(r) for r, bb in zip(w, b)], relu=False)
+    else:
+        ms = dict(kind="linear", w=[[x / 2 for x in r] for r in w], b=b, relu=False)
+    return model_json(ms)
+
+
+def inplace_section(ctx, torch, g, reqs, metas):
+    """A hedger with exactly ONE input feature and a module that overwrites its input.  Whatever tensor the feature hands out (a view of
+    an instrument's buffer, the hedger's stored previous output), the module's input belongs to the module: the hedge all at once, the
+    hedge one step at a time (get_input(i) -> model), P&L and loss equal those of the same module applied to private copies of the
+    feature values taken from the generated market, in whatever order the evaluations are made, and the market is the same afterwards."""
+    import math
+    from pfhedge.nn import Hedger
+    from pfhedge.nn.functional import pl as pl_fn
+    n = 110 if ctx.tier == "quick" else 700
+    for it in range(len(INPLACE_CORPUS) + n):
+        if it < len(INPLACE_CORPUS):
+            name, primary, first, H = INPLACE_CORPUS[it]
+        else:
+            name = g.choice(INPLACE_FEATURES + ["underlier_spot", "prev_hedge"])
+            primary = g.choice(["BrownianStock", "HestonStock", "MertonJumpStock", "LocalVolatilityStock"] +
+                               (["HestonStock"] * 3 if name == "variance" else ["LocalVolatilityStock"] * 3 if name == "volatility" else []))
+            first, H = g.choice(INPLACE_FIRST), g.choice([1, 1, 2, 3])
+        mk = signed_market(g, gen_market(g, primary=primary))
+        if name == "spot":
+            mk["listed"] = (F(1), F(0))
+        N, T = mk["N"], mk["T"]
+        prev_only = name == "prev_hedge"
+        nin = H if prev_only else 1
+        values = [] if prev_only else sorted({x for p in feature_table(name, mk) for x in p})
+        ip = gen_inplace(g, nin, H, first, values)
+        d, u = build_derivative(torch, mk)
+        if name == "spot":
+            d.list(lambda dd: dd.ul().spot, cost=float(mk["cost"]))       # quoted at its underlier's price: 'spot' is that buffer
+        others = extra_hedges(torch, g, mk, H - 1)
+        hedge = [u] + others
+        others_spot = [o.spot.clone() for o in others]
+        model = inplace_obj(torch, ip)
+        hedger = Hedger(model, [name])
+        order = g.choice(["batched_first", "stepwise_first"])
+        case = {"inplace_model": {"first": first, "lo": rat_str(ip["lo"]), "hi": rat_str(ip["hi"]), "w": enc_rat(ip["w"]), "b": enc_rat(ip["b"])},
+                "features": [name], "H": H, "option": mk["option"], "primary": mk["primary"], "T": T, "N": N, "order": order,
+                "spot": enc_rat(mk["spot"]), "var": enc_rat(mk["var"]) if name == "variance" else None,
+                "strike": rat_str(mk["strike"]), "dt": rat_str(mk["dt"])}
+        ctx.case(case, nontrivial=first != "none", tag="inplace_model")
+        ctx.traces += 1
+        ctx.stats[f"inplace: feature={name}"] += 1
+        ctx.stats[f"inplace: first={first}"] += 1
+        key = "inplace-model:" + ("prev_hedge" if prev_only else "one-feature")
+
+        def intact():
+            ok = torch.equal(u.spot, tens(torch, mk["spot"])) and all(torch.equal(o.spot, sp_) for o, sp_ in zip(others, others_spot))
+            if mk["primary"] == "HestonStock":
+                ok = ok and torch.equal(u.variance, tens(torch, mk["var"]))
+            if mk["primary"] == "LocalVolatilityStock":
+                ok = ok and torch.equal(u.get_buffer("volatility"), tens(torch, mk["vol"]))
+            return ok
+
+        def market_now():
+            return {"spot": u.spot.tolist()} | ({"variance": u.variance.tolist()} if mk["primary"] == "HestonStock" else {}) | \
+                ({"volatility": u.volatility.tolist()} if mk["primary"] == "LocalVolatilityStock" else {})
+        with torch.no_grad():
+            inject(torch, u, mk)
+            payoff0 = d.payoff().clone()
+            # the reference: the module on private copies of the feature values (by hand: out_i = model(out_{i-1}), out_{-1} = 0, for prev_hedge)
+            cols, prev_ = [], torch.zeros(N, 1, H, dtype=torch.float64)
+            tab = None if prev_only else tens(torch, feature_table(name, mk))
+            for i in range(T - 1):
+                prev_ = model((prev_ if prev_only else tab[:, [i]].unsqueeze(-1)).clone())
+                cols.append(prev_.clone())
+            ref = torch.cat(cols + [cols[-1]], dim=-2).transpose(-1, -2)
+            exp_pl = pl_fn(spot=torch.stack([tens(torch, mk["spot"])] + others_spot, dim=1), unit=ref, cost=[hh.cost for hh in hedge], payoff=payoff0)
+            bad = False
+            for mode in (["batched", "stepwise"] if order == "batched_first" else ["stepwise", "batched"]):
+                if prev_only and mode == "stepwise":
+                    continue
+                if mode == "batched":
+                    # compute_hedge, compute_pl, compute_hedge again on the SAME market (not re-injected in between)
+                    st, out, _ = call_impl(hedger.compute_hedge, d, hedge)
+                    ok1 = intact()
+                    stp, plv, _ = call_impl(hedger.compute_pl, d, hedge)
+                    stb, outb, _ = call_impl(hedger.compute_hedge, d, hedge)
+                    if st != "ok" or stp != "ok" or stb != "ok":
+                        ctx.fail(f"compute_hedge / compute_pl raised for a one-feature hedger ({name}) whose module works in place on its input", case,
+                                 key=key + ":error", detail=[str(out)[:100], str(plv)[:100], str(outb)[:100]])
+                        bad = True
+                        break
+                    if tuple(out.shape) != (N, H, T) or not torch.equal(out, ref):
+                        ctx.fail(f"one input feature ({name}), module working in place on its input: the hedge" + (" does not follow out_i = model(out_{i-1}), out_{-1} = 0 "
+                                 "(the recorded output of a step is not what the model returned)" if prev_only else " all at once differs from the module applied one step at a time to the feature values"),
+                                 case, key=key + ":hedge", detail={"hedger": out.tolist(), "by_hand": ref.tolist()})
+                    if not ok1 or not intact():
+                        ctx.fail(f"one input feature ({name}), module working in place on its input: evaluating the hedge / P&L overwrites the market (the module's input is the "
+                                 "instrument's buffer itself), so every later evaluation sees other prices", case, key=key + ":market-after-batched",
+                                 detail={"after_compute_hedge_intact": ok1, "market": market_now()})
+                    if tuple(plv.shape) != (N,) or not torch.equal(plv, exp_pl):
+                        ctx.fail(f"one input feature ({name}), module working in place on its input: compute_pl differs from functional.pl on the step-by-step hedge, the generated "
+                                 "prices, the cost rates and the payoff of the generated market", case, key=key + ":pl", detail={"hedger": plv.tolist(), "stepwise": exp_pl.tolist()})
+                    if tuple(outb.shape) != (N, H, T) or not torch.equal(outb, ref):
+                        ctx.fail(f"one input feature ({name}), module working in place on its input: a second evaluation of the hedge on the same market differs from the "
+                                 "step-by-step hedge", case, key=key + ":second-evaluation", detail={"hedger": outb.tolist(), "by_hand": ref.tolist()})
+                else:
+                    # one step at a time through the real objects: get_input(i) -> model
+                    try:
+                        fl = hedger.inputs.of(d, hedger)
+                        outs = [model(fl.get(i)) for i in range(T - 1)]
+                        outs = torch.cat(outs + [outs[-1]], dim=-2).transpose(-1, -2)
+                    except Exception as e:  # noqa
+                        ctx.fail(f"the step-by-step evaluation get(i) -> model raised for a one-feature hedger ({name}) whose module works in place", case,
+                                 key=key + ":error", detail=repr(e)[:200])
+                        bad = True
+                        break
+                    if tuple(outs.shape) != (N, H, T) or not torch.equal(outs, ref):
+                        ctx.fail(f"one input feature ({name}), module working in place on its input: the hedge one step at a time (get(i) -> model) differs from the module applied "
+                                 "to the feature values of the generated market", case, key=key + ":stepwise-hedge", detail={"stepwise": outs.tolist(), "by_hand": ref.tolist()})
+                    if not intact():
+                        ctx.fail(f"one input feature ({name}), module working in place on its input: the step-by-step evaluation overwrites the market", case,
+                                 key=key + ":market-after-stepwise", detail={"market": market_now()})
+                if not intact():
+                    inject(torch, u, mk)        # (already reported) go on with the generated market
+                    for o, sp_ in zip(others, others_spot):
+                        o.register_buffer("spot", sp_.clone())
+            if bad:
+                continue
+            # the same module inside a ModuleOutput feature over the one input feature: all steps, then single steps, on the same market
+            mo_req = None
+            if not prev_only:
+                from pfhedge.features import ModuleOutput
+                mo_f = ModuleOutput(model, [name]).of(d, None)
+                steps = sorted({0, T - 1, g.randint(0, T - 1)})
+                ref_all = model(tab.unsqueeze(-1).clone())
+                st_all, v_all, _ = call_impl(mo_f.get, None)
+                ok_all = intact()
+                ats = [call_impl(mo_f.get, i)[:2] for i in steps]
+                casem = case | {"feature": f"ModuleOutput(module, ['{name}'])", "steps": steps}
+                if st_all != "ok" or any(st_ != "ok" for st_, _ in ats):
+                    ctx.fail(f"ModuleOutput over one input feature ({name}) with a module working in place on its input raised", casem,
+                             key="inplace-model:module_output:error", detail=[str(v_all)[:100]] + [str(v_)[:100] for _, v_ in ats])
+                else:
+                    if tuple(v_all.shape) != (N, T, H) or not torch.equal(v_all, ref_all):
+                        ctx.fail(f"ModuleOutput over one input feature ({name}) with a module working in place on its input: get(None) is not the module applied to the "
+                                 "feature values of the generated market", casem, key="inplace-model:module_output:value",
+                                 detail={"get(None)": v_all.tolist(), "by_hand": ref_all.tolist()})
+                    for i, (_, v_) in zip(steps, ats):
+                        if tuple(v_.shape) != (N, 1, H) or not torch.equal(v_, ref_all[:, [i]]):
+                            ctx.fail(f"ModuleOutput over one input feature ({name}) with a module working in place on its input: get(i) after get(None) on the same market "
+                                     "differs from column i of the module applied to the feature values", casem | {"i": i}, key="inplace-model:module_output:step-vs-all",
+                                     detail={"at": v_.tolist(), "col": ref_all[:, [i]].tolist()})
+                            break
+                    if not ok_all or not intact():
+                        ctx.fail(f"ModuleOutput over one input feature ({name}) with a module working in place on its input: evaluating the feature overwrites the market",
+                                 casem, key="inplace-model:module_output:market", detail={"after_get(None)_intact": ok_all, "market": market_now()})
+                    if tuple(v_all.shape) == (N, T, H) and all(tuple(v_.shape) == (N, 1, H) for _, v_ in ats):
+                        mo_req = (casem, steps, v_all.tolist(), [v_.tolist() for _, v_ in ats])
+            # loss: compute_loss simulates by itself; the same torch seed, then the module on private copies of the single-step inputs
+            seed_l = g.randint(0, 10 ** 6)
+            torch.manual_seed(seed_l)
+            stl, loss_b, _ = call_impl(hedger.compute_loss, d, hedge, n_paths=N)
+            torch.manual_seed(seed_l)
+            d.simulate(n_paths=N)
+            loss_s = None
+            if stl == "ok" and tuple(u.spot.shape) == (N, T):
+                pay_s = d.payoff().clone()
+                spot_s = torch.stack([hh.spot.clone() for hh in hedge], dim=1)
+                fl = hedger.inputs.of(d, hedger)
+                cols, prev_ = [], torch.zeros(N, 1, H, dtype=torch.float64)
+                for i in range(T - 1):
+                    prev_ = model((prev_ if prev_only else fl.get(i)).clone())
+                    cols.append(prev_.clone())
+                unit_s = torch.cat(cols + [cols[-1]], dim=-2).transpose(-1, -2)
+                loss_s = hedger.criterion(pl_fn(spot=spot_s, unit=unit_s, cost=[hh.cost for hh in hedge]), pay_s)
+        if stl != "ok":
+            ctx.fail(f"compute_loss raised for a one-feature hedger ({name}) whose module works in place on its input", case | {"torch_seed": seed_l},
+                     key=key + ":error", detail=str(loss_b)[:100])
+        elif loss_s is not None:
+            la, lb = loss_b.item(), loss_s.item()
+            # simulated (non-dyadic) prices: a Linear layer may round one column differently from all columns at once (1e-9 relative)
+            if math.isfinite(la) and math.isfinite(lb) and abs(la - lb) > 1e-9 * (1 + abs(lb)):
+                ctx.fail(f"one input feature ({name}), module working in place on its input: compute_loss differs from the loss of the step-by-step evaluation on the same "
+                         "simulated paths", case | {"torch_seed": seed_l}, key=key + ":loss", detail={"compute_loss": la, "stepwise": lb})
+            elif not (math.isfinite(la) and math.isfinite(lb)):
+                ctx.stats["inplace: loss not finite (skipped)"] += 1
+        # correspondence: the same function of the input as a driver module (batched hedge, path by path)
+        fj = [feature_json(name)]
+        for p in range(N):
+            reqs.append({"op": "hedge", "market": market_json(mk, p), "features": fj, "model": inplace_model_json(ip), "n": T, "h": H})
+            metas.append(("hedge", case | {"path": p, "mode": "recurrent" if prev_only else "batched"}, None, False,
+                          [[out[p][hh][t].item() for hh in range(H)] for t in range(T)], None))
+            if mo_req is not None:
+                casem, steps, allv, atv = mo_req
+                reqs.append({"op": "feat", "market": market_json(mk, p), "feature": ["module_output", inplace_model_json(ip), fj], "steps": steps, "prev": [], "n": T})
+                metas.append(("feat", casem | {"path": p}, "module_output", False, allv[p], [("ok", a_[p][0]) for a_ in atv]))
+
+
 def check(ctx):
     torch, pfhedge = import_impl()
     from pfhedge.nn import Hedger
@@ -325,10 +628,17 @@ def check(ctx):
                                  key=f"feature:{fname}:step-vs-all", detail={"at": a_, "col": b_})
                         break
     # ------------------------------------------------------------------ hedges in both modes
+    from pfhedge.nn.functional import pl as pl_fn
     n_h = 800 if ctx.tier == "quick" else 3500
-    for _ in range(n_h):
+    for it in range(n_h):
         mk = signed_market(g, gen_market(g))
         H = g.choice([1, 1, 2, 3])
+        # hedge=None ("use derivative.underliers"): the hedging instruments are the derivative's underliers -- the stock of a built-in
+        # option, ALL registered underliers of a user-defined one (H of them: prev_hedge has H entries, zeros at step 0)
+        dflt = it < len(DEFAULT_HEDGE_CORPUS) or g.chance(0.12)
+        if it < len(DEFAULT_HEDGE_CORPUS):
+            H = DEFAULT_HEDGE_CORPUS[it]
+        reg = g.choice(["register_underlier", "attribute"])
         k = g.choice([1, 2, 3])
         usable = [n for n in BASE_FEATURES if hedge_usable(n, mk)]
         names = [g.choice(usable) for _ in range(k)]
@@ -337,6 +647,9 @@ def check(ctx):
         ms = gen_linear(g, k, H) if kindm == "linear" else gen_mlp(g, k, H)
         d, u = build_derivative(torch, mk)
         T, N = mk["T"], mk["N"]
+        others = extra_hedges(torch, g, mk, H - 1)
+        if dflt and H > 1:
+            d = user_derivative(torch, mk, u, others, reg)
         base = model_obj(torch, ms)
         feats = [feature_obj(torch, n, mk, thr) for n in names]
         h_batched = Hedger(base, feats)
@@ -369,20 +682,26 @@ def check(ctx):
         stc1 = stc2 = stc3 = st2c = st3c = "skipped"
         outc1 = outc2 = outc3 = out2c = out3c = None
         rec_copy = rec_third = []
-        hedge = [u] + extra_hedges(torch, g, mk, H - 1)
+        hedge = [u] + others
+        hargs = (d,) if dflt else (d, hedge)      # what the hedger is called with
+        dfl = (":default-hedge" + (":multi-underlier" if H > 1 else "")) if dflt else ""
         ctx.stats[f"H={H}"] += 1
+        ctx.stats[f"hedge argument={'None' if dflt else 'list'}" + (" (user-defined derivative, several underliers)" if dflt and H > 1 else "")] += 1
         ctx.stats[f"copy={copy_kind}"] += 1
         ctx.stats[f"hedge: strike{'<0' if mk['strike'] < 0 else '>0'}"] += 1
         cls = sign_class(mk)
         case = {"H": H, "features": names, "thr": rat_str(thr), "model": model_json(ms), "option": mk["option"], "primary": mk["primary"],
                 "T": T, "N": N, "spot": enc_rat(mk["spot"]), "strike": rat_str(mk["strike"]), "dt": rat_str(mk["dt"])}
+        if dflt:
+            case |= {"hedge_argument": None} | ({"derivative": f"user-defined {mk['option']} with {H} underliers ({reg})",
+                                                 "other_underliers": [enc_rat(tensor_to_fracs(o.spot)) for o in others]} if H > 1 else {})
         with torch.no_grad():
             inject(torch, u, mk)
-            st1, out1, mut = call_impl(h_batched.compute_hedge, d, hedge, watch=[("derivative", d)])
+            st1, out1, mut = call_impl(h_batched.compute_hedge, *hargs, watch=[("derivative", d)])
             if mut:
                 ctx.mutated("compute_hedge(batched)", mut, case)
             inject(torch, u, mk)
-            st2, out2, mut = call_impl(h_step.compute_hedge, d, hedge, watch=[("derivative", d)])
+            st2, out2, mut = call_impl(h_step.compute_hedge, *hargs, watch=[("derivative", d)])
             if mut:
                 ctx.mutated("compute_hedge(stepwise)", mut, case)
             # a SECOND evaluation on the same hedger objects (same path count, same instruments): the recurrent state left by the
@@ -390,14 +709,14 @@ def check(ctx):
             rec_first = list(rec)
             del rec[:]
             inject(torch, u, mk)
-            st2b, out2b, mut = call_impl(h_step.compute_hedge, d, hedge, watch=[("derivative", d)])
+            st2b, out2b, mut = call_impl(h_step.compute_hedge, *hargs, watch=[("derivative", d)])
             rec_second = list(rec)
             del rec[:]
             # a model that really consumes prev_hedge, evaluated twice
             inject(torch, u, mk)
-            st3, out3, _ = call_impl(h_prev.compute_hedge, d, hedge)
+            st3, out3, _ = call_impl(h_prev.compute_hedge, *hargs)
             inject(torch, u, mk)
-            st3b, out3b, _ = call_impl(h_prev.compute_hedge, d, hedge)
+            st3b, out3b, _ = call_impl(h_prev.compute_hedge, *hargs)
             # the recurrence written out by hand (independent of the hedger's bookkeeping): x_i = (features at step i, out_{i-1}),
             # out_i = model(x_i), out_{-1} = 0 with one entry per hedging instrument; the last column repeats column T-2
             inject(torch, u, mk)
@@ -416,19 +735,36 @@ def check(ctx):
                 if not copies:
                     copies = {w: copy_hedger(ctx, h, copy_kind, rebuild[w]) for w, h in originals.items()}
                 inject(torch, u, mk)
-                stc1, outc1, _ = call_impl(copies["batched"].compute_hedge, d, hedge)
+                stc1, outc1, _ = call_impl(copies["batched"].compute_hedge, *hargs)
                 inject(torch, u, mk)
-                stc2, outc2, _ = call_impl(copies["step"].compute_hedge, d, hedge)
+                stc2, outc2, _ = call_impl(copies["step"].compute_hedge, *hargs)
                 rec_copy = list(rec)
                 del rec[:]
                 inject(torch, u, mk)
-                stc3, outc3, _ = call_impl(copies["prev"].compute_hedge, d, hedge)
+                stc3, outc3, _ = call_impl(copies["prev"].compute_hedge, *hargs)
                 inject(torch, u, mk)
-                st3c, out3c, _ = call_impl(h_prev.compute_hedge, d, hedge)
+                st3c, out3c, _ = call_impl(h_prev.compute_hedge, *hargs)
                 inject(torch, u, mk)
-                st2c, out2c, _ = call_impl(h_step.compute_hedge, d, hedge)
+                st2c, out2c, _ = call_impl(h_step.compute_hedge, *hargs)
                 rec_third = list(rec)
                 del rec[:]
+            # P&L and loss of the default-hedge scenarios, all at once and step by step (compute_loss simulates by itself: same torch seed)
+            if dflt:
+                others_spot = [o.spot.clone() for o in others]
+                inject(torch, u, mk)
+                payoff0 = d.payoff()
+                stp1, pl1, _ = call_impl(h_batched.compute_pl, *hargs)
+                inject(torch, u, mk)
+                stp2, pl2, _ = call_impl(h_step.compute_pl, *hargs)
+                seed_l = g.randint(0, 10 ** 6)
+                torch.manual_seed(seed_l)
+                stl1, loss1, _ = call_impl(h_batched.compute_loss, *hargs, n_paths=N)
+                torch.manual_seed(seed_l)
+                stl2, loss2, _ = call_impl(h_step.compute_loss, *hargs, n_paths=N)
+                del rec[:]
+                inject(torch, u, mk)
+                for o, sp_ in zip(others, others_spot):
+                    o.register_buffer("spot", sp_)
             rec.extend(rec_first)
         ctx.case(case, nontrivial=True, tag="hedge_modes")
         ctx.traces += 1
@@ -459,7 +795,7 @@ def check(ctx):
             continue
         if st3 == "ok" and not same_hedge(out3, ref3):
             ctx.fail("a hedger consuming prev_hedge does not follow out_i = model(features_i, out_{i-1}), out_{-1} = 0", casep,
-                     key="compute_hedge:prev_hedge:recurrence" + cls, detail={"hedger": out3.tolist(), "by_hand": ref3.tolist()})
+                     key="compute_hedge:prev_hedge:recurrence" + dfl + cls, detail={"hedger": out3.tolist(), "by_hand": ref3.tolist()})
         copied = copy_kind != "none"
         if copied and st3 == "ok" and (stc3 != "ok" or not same_hedge(outc3, ref3)):
             ctx.fail(f"a copy ({copy_kind}) of a hedger consuming prev_hedge does not follow out_i = model(features_i, out_{{i-1}}), out_{{-1}} = 0",
@@ -493,15 +829,45 @@ def check(ctx):
                                      "(zeros of width H at step 0)", casec | {"i": i}, key="compute_hedge:copy:prev_hedge",
                                      detail={"seen": prev, "expected": exp, "shape": list(x.shape)})
                             break
+        if st3 != "ok":
+            ctx.fail("a hedger consuming prev_hedge raises although the hand-unrolled recurrence out_i = model(features_i, out_{i-1}), out_{-1} = 0 (one entry per "
+                     "hedging instrument) is defined", casep, key="compute_hedge:prev_hedge:raises" + dfl, detail=str(out3)[:200])
+        if dflt and rec and (tuple(rec[0].shape) != (N, 1, k + H) or bool((rec[0][..., k:] != 0).any())):
+            ctx.fail("hedge=None: prev_hedge seen by the model at step 0 is not zero with one entry per hedging instrument (= per underlier of the derivative)",
+                     case, key="compute_hedge:prev_hedge:step0" + dfl, detail={"shape": list(rec[0].shape), "expected": [N, 1, k + H], "seen": rec[0].tolist()})
         if st1 != "ok" or st2 != "ok":
-            ctx.fail("compute_hedge raised on a well-formed market", case, key="compute_hedge:error", detail=[str(out1)[:100], str(out2)[:100]])
+            ctx.fail("compute_hedge raised on a well-formed market", case, key="compute_hedge:error" + dfl, detail=[str(out1)[:100], str(out2)[:100]])
             continue
+        if dflt and (tuple(out1.shape) != (N, H, T) or tuple(out2.shape) != (N, H, T)):
+            ctx.fail("hedge=None: the hedge has not one row per underlier of the derivative", case, key="compute_hedge:shape" + dfl,
+                     detail={"batched": list(out1.shape), "stepwise": list(out2.shape), "expected": [N, H, T]})
+            continue
+        if dflt:
+            # "the same hedge, P&L and loss": P&L all at once == P&L step by step == functional.pl on the step-by-step hedge, the generated
+            # prices of ALL hedging instruments, their own cost rates and the derivative's payoff
+            exp_pl = pl_fn(spot=torch.stack([tens(torch, mk["spot"])] + others_spot, dim=1), unit=out2, cost=[hh.cost for hh in hedge], payoff=payoff0)
+            if stp1 != "ok" or stp2 != "ok":
+                ctx.fail("hedge=None: compute_pl raises although compute_hedge gives one position per underlier of the derivative", case,
+                         key="compute_pl:error" + dfl, detail=[str(pl1)[:100], str(pl2)[:100]])
+            elif not (same_hedge(pl1, pl2) and same_hedge(pl2, exp_pl)):
+                ctx.fail("hedge=None: the P&L all at once, the P&L step by step and functional.pl on the step-by-step hedge over all underliers differ", case,
+                         key="compute_pl:batched-vs-stepwise" + dfl, detail={"batched": pl1.tolist(), "stepwise": pl2.tolist(), "from_hedge": exp_pl.tolist()})
+            if stl1 != "ok" or stl2 != "ok":
+                ctx.fail("hedge=None: compute_loss raises on a derivative whose underliers are the hedging instruments", case | {"torch_seed": seed_l},
+                         key="compute_loss:error" + dfl, detail=[str(loss1)[:100], str(loss2)[:100]])
+            else:
+                import math
+                la, lb = loss1.item(), loss2.item()
+                # simulated (non-dyadic) prices: dot products may be accumulated in another order for one column than for all (1e-9 relative)
+                if math.isfinite(la) and math.isfinite(lb) and abs(la - lb) > 1e-9 * (1 + abs(la)):
+                    ctx.fail("hedge=None: the loss of the all-at-once hedger differs from the loss of the step-by-step hedger on the same simulated paths", case | {"torch_seed": seed_l},
+                             key="compute_loss:batched-vs-stepwise" + dfl, detail={"batched": la, "stepwise": lb})
         a, b = out1.tolist(), out2.tolist()
         ok = vals_equal(a, b, False) if not anylog else all(
             near(x, y) for pa, pb in zip(a, b) for ra, rb in zip(pa, pb) for x, y in zip(ra, rb))
         if not ok:
             ctx.fail("a hedger with state-independent inputs gives different hedges all-at-once and step-by-step", case,
-                     key="compute_hedge:batched-vs-stepwise" + cls, detail={"batched": a, "stepwise": b})
+                     key="compute_hedge:batched-vs-stepwise" + dfl + cls, detail={"batched": a, "stepwise": b})
         # recorded inputs: prev_hedge column at step i == output at step i-1; zeros (width H) at step 0
         if len(rec) != T - 1:
             ctx.fail("the model is not called once per step 0..T-2 in the step-by-step mode", case, key="compute_hedge:calls",
@@ -512,7 +878,7 @@ def check(ctx):
                 exp = [[0.0] * H for _ in range(N)] if i == 0 else [[out2[p][hh][i - 1].item() for hh in range(H)] for p in range(N)]
                 if tuple(x.shape) != (N, 1, k + H) or prev != exp:
                     ctx.fail("prev_hedge seen by the model at step i is not the model's output at step i-1 (zeros of width H at step 0)",
-                             case | {"i": i}, key="compute_hedge:prev_hedge", detail={"seen": prev, "expected": exp, "shape": list(x.shape)})
+                             case | {"i": i}, key="compute_hedge:prev_hedge" + dfl, detail={"seen": prev, "expected": exp, "shape": list(x.shape)})
                     break
         for p in range(N):
             fj = [feature_json(n, thr) for n in names]
@@ -532,6 +898,8 @@ def check(ctx):
             if p == 0 and st3 == "ok" and stc3 == "ok" and tuple(outc3.shape) == (N, H, T):
                 reqs.append({"op": "hedge", "market": market_json(mk, p), "features": fj + [["prev_hedge"]], "model": model_json(msp), "n": T, "h": H})
                 metas.append(("hedge", casep | {"copy": copy_kind, "path": p, "mode": "recurrent-copy"}, None, anylog, [[outc3[p][hh][t].item() for hh in range(H)] for t in range(T)], None))
+    # ------------------------------------------------------------------ one-feature hedgers with modules working in place
+    inplace_section(ctx, torch, g, reqs, metas)
     try:
         outs = ctx.driver(reqs)
     except DriverBroken as e:
@@ -565,7 +933,10 @@ def check(ctx):
              "derivative simulated, cast to float32, deep copy of the bound feature); strikes below zero and paths below zero (one sign per path; log features of a "
              "hedging model only where defined); hedges: linear/MLP dyadic models through both branches with a recording wrapper, a model consuming prev_hedge "
              "(directly / through ModuleOutput) against the hand-unrolled recurrence, and the same on copies of the hedgers (deepcopy before / after use, "
-             "pickle, state_dict into a newly built hedger); non-trivial = T>=2; distinct = sha1 of canonical case")
+             "pickle, state_dict into a newly built hedger); the same with hedge=None (built-in options; user-defined options with 2-3 registered underliers: "
+             "prev_hedge zeros per underlier, P&L and loss in both modes; deterministic corpus + random); one-feature hedgers (underlier_spot / spot at the underlier's price / "
+             "variance / volatility / moneyness / prev_hedge alone) whose module overwrites its input (ReLU / Hardtanh in place, x -= 1, x *= 1/2): hedge all at once, step by step, "
+             "P&L, loss and the market afterwards (deterministic corpus + random); non-trivial = T>=2; distinct = sha1 of canonical case")
 
 
 def pad_model(ms, H):
